@@ -22,8 +22,14 @@ theorem C07_source_shape :
     waitChainIndex = "min(attempts, len(self.strategies) - 1)" ∧
     composedNext = "if self.retry is not None and (not self.retry(error)): return None ; delay = self.wait(attempts, seed=seed) ; if self.stop(attempts, elapsed_time, upcoming_sleep=delay): return None ; return delay" ∧
     loopFailures = "this_execution.attempts + 1" ∧
-    loopNextArgs = "elapsed_time, failures, result.exception" :=
-  ⟨rfl, rfl, rfl, rfl, rfl, rfl, rfl, rfl, rfl⟩
+    loopNextArgs = "elapsed_time, failures, result.exception" ∧
+    -- the operators are defined on the three bases only (no subclass has an operator of its own)
+    operatorDefs = ["_RetryConditionBase.__and__", "_RetryConditionBase.__or__", "_RetryConditionBase.__rand__",
+      "_RetryConditionBase.__ror__", "_StopConditionBase.__and__", "_StopConditionBase.__or__", "_StopConditionBase.__rand__",
+      "_StopConditionBase.__ror__", "_WaitStrategyBase.__add__", "_WaitStrategyBase.__radd__"] ∧
+    -- every time argument (number or timedelta) is converted by total_seconds()
+    toSecondsBody = "return float(value.total_seconds() if isinstance(value, timedelta) else value)" :=
+  ⟨rfl, rfl, rfl, rfl, rfl, rfl, rfl, rfl, rfl, rfl, rfl⟩
 
 /-! ## algebra -/
 
